@@ -31,13 +31,13 @@ func module() pipe.Tree {
 	a.WriteString("// Off is switched off but keeps a sub-option.\n// +gengo:g1=false\n// +gengo:g1:sub=v\n// +gengo:deepcopy=false\n// +gengo:deepcopy:interfaces=Object\ntype Off struct{ X int }\n\n")
 	a.WriteString("// Sub has only a sub-option.\n// +gengo:g2:opt=1\ntype Sub struct{ X int }\n\ntype Alias = T\n")
 	return pipe.Tree{
-		"go.mod":                   pipe.GoMod(modPath, "1.24"),
-		"a/a.go":                   a.String(),
-		"a/zz_generated.old1.go":   "package a\n\nvar StaleOne = 1\n",
-		"a/zz_generated.old2.go":   "package a\n\nvar StaleTwo = 1\n",
-		"a/zz_generated.old3.go":   "package a\n\nvar StaleThree = 1\n",
-		"b/b.go":                   "// +gengo:deepcopy\n// +gengo:runtimedoc\npackage b\n\nimport \"" + modPath + "/c\"\n\n// B doc\ntype B struct {\n\t// C doc\n\tC c.C\n\tN Named\n}\n\ntype Named map[string]string\n\ntype B2 int\n",
-		"c/c.go":                   "// +gengo:deepcopy\npackage c\n\n// C doc\ntype C struct{ V []int }\n\ntype C2 string\n",
+		"go.mod":                 pipe.GoMod(modPath, "1.24"),
+		"a/a.go":                 a.String(),
+		"a/zz_generated.old1.go": "package a\n\nvar StaleOne = 1\n",
+		"a/zz_generated.old2.go": "package a\n\nvar StaleTwo = 1\n",
+		"a/zz_generated.old3.go": "package a\n\nvar StaleThree = 1\n",
+		"b/b.go":                 "// +gengo:deepcopy\n// +gengo:runtimedoc\npackage b\n\nimport \"" + modPath + "/c\"\n\n// B doc\ntype B struct {\n\t// C doc\n\tC c.C\n\tN Named\n}\n\ntype Named map[string]string\n\ntype B2 int\n",
+		"c/c.go":                 "// +gengo:deepcopy\npackage c\n\n// C doc\ntype C struct{ V []int }\n\ntype C2 string\n",
 	}
 }
 
